@@ -9,7 +9,7 @@ structure Asn where
   name : String
   cfg : Cfg
   test : NM.Test
-  vals : List Rat      -- value of this assertion's data for card i
+  vals : List (Option Rat)      -- value of this assertion's data for card i (none: the card is not used)
 
 structure Con where
   id : String
@@ -18,7 +18,7 @@ structure Con where
 
 def parseAsn (j : Json) : R Asn := do
   let (cfg, test, _, _) ← NMH.parseInit (← fld j "init")
-  pure { name := ← strF j "name", cfg := cfg, test := test, vals := ← ratsF j "vals" }
+  pure { name := ← strF j "name", cfg := cfg, test := test, vals := ← (← arrF j "vals").mapM (fun v => if v.isNull then pure none else do pure (some (← asRat v))) }
 
 def parseCon (j : Json) : R Con := do
   pure { id := ← strF j "id", limit := ← ratF j "limit", asns := ← (← arrF j "assertions").mapM parseAsn }
@@ -35,10 +35,10 @@ def handle (op : String) (a : Json) : R Json := do
   | "first" =>
       let cons ← (← arrF a "contests").mapM parseCon
       let orders ← (← arrF a "orders").mapM (fun o => do (← asArr o).mapM asNat)
-      let data : String → String → Nat → Rat := fun cid name i =>
+      let data : String → String → Nat → Option Rat := fun cid name i =>
         match findAsn cons cid name with
-        | some x => x.vals.getD i 0
-        | none => 0
+        | some x => x.vals.getD i none
+        | none => none
       let T : String → String → SeqTest := fun cid name =>
         match findAsn cons cid name with
         | some x => run sqrtRat x.cfg x.test
@@ -46,7 +46,7 @@ def handle (op : String) (a : Json) : R Json := do
       let s : State := cons.map fun c =>
         { id := c.id, riskLimit := c.limit, assertions := c.asns.map (fun x => { name := x.name }) }
       let res := orders.map fun o =>
-        match firstComplete data T s o with
+        match firstCompleteOpt data T s o with
         | some k => jNat k
         | none => Json.null
       pure (jOk [("first", jArr res)])
